@@ -8,6 +8,7 @@ CONSTANTS
   ClVals = {1}
   ChunkIds = {1}
   MaxBody = 100000
+  InmVersions = {"1.1"}
   Prune = FALSE
   MaxHdr = 1000
 CONSTRAINT Report
